@@ -472,6 +472,64 @@ func apiFacts(repo, out string) {
 	write(filepath.Join(out, "ApiFacts.lean"), sb.String())
 }
 
+// sqlFacts writes the text of every sqlc query of the database packages the fakes stand in for
+// (whitespace collapsed), so that the Lean side can pin the queries a model reads.
+func sqlFacts(out string) {
+	pkgs := [][2]string{
+		{"gnosis", "keyperimpl/gnosis/database"},
+		{"keyper", "keyper/database"},
+		{"obskeyper", "chainobserver/db/keyper"},
+		{"obssync", "chainobserver/db/sync"},
+		{"service", "keyperimpl/shutterservice/database"},
+	}
+	var sb strings.Builder
+	sb.WriteString("/- GENERATED by harness/factx from the sqlc query constants of /repo — do not edit. -/\nnamespace Shutter.Generated.SqlFacts\n\n")
+	for _, pk := range pkgs {
+		ps := [][2]string{}
+		for _, p := range load(pk[1]) {
+			for _, f := range p.Syntax {
+				if isTestFile(p.Fset, f) {
+					continue
+				}
+				for _, d := range f.Decls {
+					gd, ok := d.(*ast.GenDecl)
+					if !ok || gd.Tok != token.CONST {
+						continue
+					}
+					for _, sp := range gd.Specs {
+						vs := sp.(*ast.ValueSpec)
+						for i, v := range vs.Values {
+							bl, ok := v.(*ast.BasicLit)
+							if !ok || bl.Kind != token.STRING {
+								continue
+							}
+							txt, err := strconv.Unquote(bl.Value)
+							if err != nil || !strings.HasPrefix(txt, "-- name: ") {
+								continue
+							}
+							lines := strings.SplitN(txt, "\n", 2)
+							name := strings.Fields(strings.TrimPrefix(lines[0], "-- name: "))[0]
+							body := ""
+							if len(lines) > 1 {
+								body = strings.Join(strings.Fields(lines[1]), " ")
+							}
+							_ = i
+							ps = append(ps, [2]string{name, body})
+						}
+					}
+				}
+			}
+		}
+		sortPairs(ps)
+		for _, q := range ps {
+			fmt.Fprintf(&sb, "def %s_%s : String := %s\n", pk[0], q[0], leanStr(q[1]))
+		}
+		sb.WriteString("\n")
+	}
+	sb.WriteString("end Shutter.Generated.SqlFacts\n")
+	write(filepath.Join(out, "SqlFacts.lean"), sb.String())
+}
+
 func dedup(ps [][2]string) [][2]string {
 	out := [][2]string{}
 	for i, p := range ps {
@@ -516,6 +574,8 @@ func main() {
 			persistFacts(*out)
 		case "api":
 			apiFacts(*repo, *out)
+		case "sql":
+			sqlFacts(*out)
 		default:
 			fmt.Fprintln(os.Stderr, "factx: unknown fact set", what)
 			os.Exit(1)
